@@ -884,6 +884,8 @@ def run_c16(ctx):
 def run_c19(ctx):
     corpus_format(ctx)
     corpus_shape(ctx)
+    import r_codec
+    r_codec.errprop_corpus(ctx)
 
 
 def run_c13(ctx):
@@ -937,8 +939,22 @@ def corpus_shape(ctx):
     if tok is None:
         raise EngineError("CORPUS: the pending token list was not identified")
     # loop header: the lines() iterator's next
+    def over_lines(t):
+        if "Lines" in " ".join(callee_paths(t)):
+            return True
+        cur = t["args"][0] if t["args"] else None
+        for _ in range(10):
+            if cur is None:
+                return False
+            o = fa.origin(cur)
+            if o[0] != "call":
+                return False
+            if any(strip_generics(x).endswith("::lines") for x in callee_paths(o[2])):
+                return True
+            cur = o[2]["args"][0] if o[2]["args"] else None
+        return False
     heads = [b for b, t in fa.calls() if any(strip_generics(x).endswith("::next") for x in callee_paths(t))
-             and "Lines" in " ".join(callee_paths(t))]
+             and over_lines(t)]
     if len(heads) != 1:
         raise EngineError("CORPUS: the line loop was not recognised")
     H = heads[0]
